@@ -901,12 +901,76 @@ def rule_diag(repo, rep):
   rep.floor('objective evaluations in _fit_diag', len(objs), 2)
 
 
+def rule_no_write_through_ravel(repo, rep, modules=('mmc',)):
+  R = 'R-EFFECT:no-update-through-a-flattened-alias'
+  rep.rule(R, 'no array is updated in place through `x = A.ravel()` / '
+           '`A.reshape(-1)` while A itself is read afterwards without a '
+           'write-back `A[:] = ...`: ravel / reshape return a view only for '
+           'contiguous memory; for a Fortran-ordered A (a user-supplied init, '
+           'a transposed matrix) they copy and the update is lost - '
+           'invisible to tests on C-ordered arrays')
+  n = 0
+  for f in repo.all_functions():
+    if f.module.short not in modules:
+      continue
+    body = list(ast.walk(f.node))
+    for a in body:
+      if not (isinstance(a, ast.Assign) and len(a.targets) == 1 and
+              isinstance(a.targets[0], ast.Name)):
+        continue
+      v = a.value
+      base = None
+      if isinstance(v, ast.Call) and isinstance(v.func, ast.Attribute) and \
+              isinstance(v.func.value, ast.Name) and (
+                  v.func.attr == 'ravel' or (
+                      v.func.attr == 'reshape' and
+                      [ast.unparse(x) for x in v.args] in (['-1'], ['(-1,)']))):
+        base = v.func.value.id
+      if base is None or base == a.targets[0].id:
+        continue
+      alias = a.targets[0].id
+      n += 1
+      after = [x for x in body if getattr(x, 'lineno', 0) > a.lineno]
+      upd = [x for x in after if (
+          isinstance(x, ast.AugAssign) and isinstance(x.target, ast.Name) and
+          x.target.id == alias) or (
+          isinstance(x, ast.Assign) and any(
+              isinstance(t, ast.Subscript) and isinstance(t.value, ast.Name)
+              and t.value.id == alias for t in x.targets)) or (
+          isinstance(x, ast.AugAssign) and isinstance(
+              x.target, ast.Subscript) and isinstance(
+              x.target.value, ast.Name) and x.target.value.id == alias)]
+      key = '%s:%s=%s' % (f.key, alias, ast.unparse(v))
+      if not upd:
+        rep.derived(R, key, site(f, a))
+        continue
+      u = upd[0]
+      wb = [x for x in after if isinstance(x, ast.Assign) and any(
+          isinstance(t, ast.Subscript) and isinstance(t.value, ast.Name) and
+          t.value.id == base for t in x.targets) and
+          x.lineno >= u.lineno and alias in [
+              y.id for y in ast.walk(x.value) if isinstance(y, ast.Name)]]
+      reads = [x for x in after if isinstance(x, ast.Name) and
+               isinstance(x.ctx, ast.Load) and x.id == base and
+               x.lineno > u.lineno]
+      if wb or not reads:
+        rep.derived(R, key, site(f, a))
+      else:
+        rep.refuted(R, key, site(f, u), '%s is updated in place (%s) as if '
+                    'it were a view of %s, and %s is read afterwards without '
+                    'a write-back: for a non-contiguous (Fortran-ordered) %s '
+                    'the update is lost' % (alias, ast.unparse(u)[:50], base,
+                                            base, base))
+  rep.floor('flattened aliases examined', n, 1)
+
+
 def check(repo, rep, tier):
   rule_full(repo, rep)
   rule_scheme(repo, rep)
   rule_projection_formula(repo, rep)
   rule_init_flow(repo, rep)
   rule_diag(repo, rep)
+  rule_no_write_through_ravel(repo, rep)
   # the iterations start from the caller's init, which they must leave
   # untouched (FRESH rule of C17, MMC only)
   from . import c17 as _c17
